@@ -264,12 +264,9 @@ func (m *Msg) Pack(b []byte, compression bool, size int) (int, error) {
 		return 0, errTooManyAdditionals
 	}
 
+	// Section counts are the numbers of elements actually packed (some
+	// may be omitted because of the size limit).
 	var h header
-	h.id, h.bits = m.Header.Pack()
-	h.questions = uint16(len(m.Questions))
-	h.answers = uint16(len(m.Answers))
-	h.authorities = uint16(len(m.Authorities))
-	h.additionals = uint16(len(m.Additionals))
 
 	if size > 0 && size < 512 {
 		size = 512
@@ -303,6 +300,7 @@ func (m *Msg) Pack(b []byte, compression bool, size int) (int, error) {
 		if off, err = q.pack(b, off, compressionMap); err != nil {
 			return off, newSectionErr("question", err)
 		}
+		h.questions++
 	}
 
 	for _, r := range m.Answers {
@@ -314,6 +312,7 @@ func (m *Msg) Pack(b []byte, compression bool, size int) (int, error) {
 		if off, err = r.pack(b, off, compressionMap); err != nil {
 			return off, newSectionErr("answer", err)
 		}
+		h.answers++
 	}
 	for _, r := range m.Authorities {
 		if size > 0 && off+r.packLen() > size {
@@ -324,6 +323,7 @@ func (m *Msg) Pack(b []byte, compression bool, size int) (int, error) {
 		if off, err = r.pack(b, off, compressionMap); err != nil {
 			return off, newSectionErr("authority", err)
 		}
+		h.authorities++
 	}
 	for _, r := range m.Additionals {
 		if size > 0 && off+r.packLen() > size {
@@ -334,6 +334,7 @@ func (m *Msg) Pack(b []byte, compression bool, size int) (int, error) {
 		if off, err = r.pack(b, off, compressionMap); err != nil {
 			return off, newSectionErr("additional", err)
 		}
+		h.additionals++
 	}
 
 	if edns0Opt != nil {
@@ -342,8 +343,10 @@ func (m *Msg) Pack(b []byte, compression bool, size int) (int, error) {
 		if off, err = edns0Opt.pack(b, off, compressionMap); err != nil {
 			return off, newSectionErr("additional", err)
 		}
+		h.additionals++
 	}
 
+	h.id, h.bits = msgHdr.Pack() // msgHdr has the Truncated flag if something was omitted
 	h.pack(b[:12])
 	return off, nil
 }
